@@ -166,7 +166,7 @@ package cert
 // leaves open) is an assumption; what is verified against the code (ghost trace `ws` of the
 // builder writes): the first write is the 4-byte count of claimed signers, every claimed
 // signer's 4-byte id is written, and nothing else is.
-//@ func writeSigners property C11
+//@ func writeSigners property C11,C02
 //@   opt trusted-posts chunk
 //@   requires key != nil && signature != nil
 //@   ghost at call Builder.Write :: emit ws(content(op1), len(op1))
@@ -196,7 +196,7 @@ package cert
 //@   ensures [inv] cinv(cache)
 //@   modifies cache.entries[*], cache.accessOrder, alloc
 
-//@ func (*Cache).Verify property C11,C03,C10
+//@ func (*Cache).Verify property C11,C03,C10,C02
 //@   requires cinv(cache) && signature != nil
 //@   ensures [sound] result == nil ==> vok(cache.impl, signature, content(message))
 //@   ensures [inv] cinv(cache)
@@ -224,7 +224,7 @@ package cert
 // accepted. Not proved: that the key names the verdict (the digest value is outside the
 // model; the explicit assumption at the call of insert says so).
 //@ pure func bhdr(id hotstuff.ID, n int) int = abytes(aput(aput(0, 0, 4, id), 4, 8, n))
-//@ func (*Cache).BatchVerify property C11
+//@ func (*Cache).BatchVerify property C11,C02
 //@   requires cinv(cache) && signature != nil && (forall id hotstuff.ID :: {has(batch, id)} has(batch, id) ==> len(batch[id]) <= 281474976710656)
 //@   ghost at call Hash.Write :: emit hw(content(op1), len(op1))
 //@   ghost at call PutUint32 :: emit hid(op2)
